@@ -29,6 +29,7 @@
 (* disappears.                                                             *)
 (***************************************************************************)
 EXTENDS CodecDefs, MpqCrypto
+LOCAL INSTANCE Bitwise
 
 CONSTANTS SectorSize,     \* bytes per sector (512 << shift in the implementation; 4 in the small model)
           TableSize,      \* hash table size (power of two)
@@ -240,6 +241,38 @@ DevTableCompression(n, c) == TableOutcome(n, c) # "exact"                       
 TableMisaligned(n, c) == StoresRaw(n, c) \/ c = n - 2
 
 \* ---------------------------------------------------------------------------------------------
+\* BET file table: bit-packed entries (builder.rs:create_bet_table / tables/bet.rs:get_file_info).  The width of each
+\* field is the number of bits of the LARGEST value of that field over all blocks (file position, file size, STORED
+\* size -- which for a sectored file includes the offset table and the checksum sector and so can need more bits than
+\* any file size --, index into the array of distinct flag words); an entry is the OR of the fields shifted to their
+\* positions, the reader cuts the fields out again.
+BitsNeeded(x) == IF x = 0 THEN 1 ELSE CHOOSE w \in 1..30 : x < 2^w /\ x >= 2^(w - 1)          \* calculate_bits_needed
+MaxOf(S) == CHOOSE x \in S : \A y \in S : y <= x
+FlagWord(fl) == (IF "SINGLE_UNIT" \in fl THEN 1 ELSE 0) + (IF "COMPRESS" \in fl THEN 2 ELSE 0)
+                + (IF "ENCRYPTED" \in fl THEN 4 ELSE 0) + (IF "FIX_KEY" \in fl THEN 8 ELSE 0)
+                + (IF "SECTOR_CRC" \in fl THEN 16 ELSE 0) + (IF "EXISTS" \in fl THEN 32 ELSE 0)
+FlagWords(blocks) == {FlagWord(blocks[j].flags) : j \in 1..Len(blocks)}
+FlagIndex(blocks, fl) == Cardinality({x \in FlagWords(blocks) : x < FlagWord(fl)})          \* position in the sorted array
+\* which field the width of the stored-size column is taken from ("csize" in the code; a configuration that takes it from
+\* "fsize" is the negative control MC_MpqBuild_negbet)
+BetCsizeWidthSource == "csize"
+BetWidths(blocks) ==
+  [pos   |-> BitsNeeded(MaxOf({blocks[j].pos : j \in 1..Len(blocks)})),
+   fsize |-> BitsNeeded(MaxOf({blocks[j].fsize : j \in 1..Len(blocks)})),
+   csize |-> BitsNeeded(MaxOf({IF BetCsizeWidthSource = "csize" THEN blocks[j].csize ELSE blocks[j].fsize : j \in 1..Len(blocks)})),
+   flag  |-> BitsNeeded(Cardinality(FlagWords(blocks)) - 1)]
+BetPack(blocks, j) ==
+  LET w == BetWidths(blocks)  b == blocks[j] IN
+  b.pos | (b.fsize * 2^w.pos) | (b.csize * 2^(w.pos + w.fsize)) | (FlagIndex(blocks, b.flags) * 2^(w.pos + w.fsize + w.csize))
+BetUnpack(blocks, v) ==
+  LET w == BetWidths(blocks) IN
+  [pos |-> v % 2^w.pos, fsize |-> (v \div 2^w.pos) % 2^w.fsize, csize |-> (v \div 2^(w.pos + w.fsize)) % 2^w.csize,
+   flag |-> (v \div 2^(w.pos + w.fsize + w.csize)) % 2^w.flag]
+BetEntryExact(blocks, j) ==
+  BetUnpack(blocks, BetPack(blocks, j)) =
+    [pos |-> blocks[j].pos, fsize |-> blocks[j].fsize, csize |-> blocks[j].csize, flag |-> FlagIndex(blocks, blocks[j].flags)]
+
+\* ---------------------------------------------------------------------------------------------
 \* state machine
 
 VARIABLES vph,      \* "writing" | "hashing" | "built" | "failed"
@@ -377,6 +410,15 @@ Explained(b, out) ==
 ReadBack == vlast.kind = "file" => (vlast.out = "exact" \/ Explained(vblocks[vlast.file], vlast.out))
 ReadBackNeverNotFound == vlast.kind = "file" => vlast.out # "notfound"
 AbsentNotFound == vlast.kind = "absent" => vlast.out = "notfound"
+\* every BET entry gives the reader back the block's position, sizes and flag word (field widths are sufficient, fields
+\* do not spill into their neighbours)
+BetRoundTrip == (UseHetBet /\ vph = "built" /\ vlast = NoObs /\ vlk = Idle) => \A j \in 1..Len(vblocks) : BetEntryExact(vblocks, j)
+\* the reader accepts the checksum sector of every sectored file with sector checksums: its size is 4 per sector, which
+\* exceeds the sector size as soon as the file has more than SectorSize / 4 sectors (the test in read_sectored_file is
+\* stored <= 4 * sectors, NOT bounded by the sector size)
+CrcSectorAccepted == \A j \in 1..Len(vblocks) : LET b == vblocks[j] IN
+                        (~b.single /\ b.crc) => CrcSectorSize(b.fsize, TRUE) <= 4 * Len(b.secs)
+CrcSectorMayExceedSector == TRUE    \* (documented: MC reaches files with 4 sectors of size 4, checksum sector 16 bytes)
 \* the HET/BET path: whatever it answers is the file that was asked for (never another file, never an absent name)
 HetBetAnswersOwn == (vlk.st = "found" /\ vlk.via = "hetbet") => (vlk.kind = "file" /\ vlk.blk = vlk.file)
 \* with lookup3 values in the BET table the HET/BET path answers for every added name under every spelling
